@@ -248,6 +248,8 @@ pub mod ku {
 #[derive(Clone, Copy, Debug, PartialEq, Eq, Hash, PartialOrd, Ord)]
 pub enum KeyKind {
     Rsa1024,
+    /// one bit below the profile minimum (boundary case)
+    Rsa2047,
     Rsa2048,
     Rsa3072,
     P256,
@@ -262,6 +264,7 @@ impl KeyKind {
     pub fn name(&self) -> &'static str {
         match self {
             KeyKind::Rsa1024 => "rsa1024",
+            KeyKind::Rsa2047 => "rsa2047",
             KeyKind::Rsa2048 => "rsa2048",
             KeyKind::Rsa3072 => "rsa3072",
             KeyKind::P256 => "p256",
@@ -273,7 +276,7 @@ impl KeyKind {
         }
     }
     pub fn is_rsa(&self) -> bool {
-        matches!(self, KeyKind::Rsa1024 | KeyKind::Rsa2048 | KeyKind::Rsa3072)
+        matches!(self, KeyKind::Rsa1024 | KeyKind::Rsa2047 | KeyKind::Rsa2048 | KeyKind::Rsa3072)
     }
     pub fn is_ec(&self) -> bool {
         matches!(self, KeyKind::P256 | KeyKind::P384 | KeyKind::P521 | KeyKind::Secp256k1 | KeyKind::BrainpoolP256r1)
@@ -358,6 +361,7 @@ impl Key {
     pub fn generate(kind: KeyKind) -> Key {
         let pkey = match kind {
             KeyKind::Rsa1024 => PKey::from_rsa(Rsa::generate(1024).expect("rsa")).expect("pkey"),
+            KeyKind::Rsa2047 => PKey::from_rsa(Rsa::generate(2047).expect("rsa")).expect("pkey"),
             KeyKind::Rsa2048 => PKey::from_rsa(Rsa::generate(2048).expect("rsa")).expect("pkey"),
             KeyKind::Rsa3072 => PKey::from_rsa(Rsa::generate(3072).expect("rsa")).expect("pkey"),
             KeyKind::P256 => ec_key(Nid::X9_62_PRIME256V1),
@@ -454,7 +458,7 @@ impl SigAlg {
     pub fn resolve(&self, issuer: KeyKind) -> SigAlg {
         match self {
             SigAlg::Auto => match issuer {
-                KeyKind::Rsa1024 | KeyKind::Rsa2048 | KeyKind::Rsa3072 => SigAlg::RsaPkcs1(Md::Sha256),
+                KeyKind::Rsa1024 | KeyKind::Rsa2047 | KeyKind::Rsa2048 | KeyKind::Rsa3072 => SigAlg::RsaPkcs1(Md::Sha256),
                 KeyKind::P256 | KeyKind::Secp256k1 | KeyKind::BrainpoolP256r1 => SigAlg::Ecdsa(Md::Sha256),
                 KeyKind::P384 => SigAlg::Ecdsa(Md::Sha384),
                 KeyKind::P521 => SigAlg::Ecdsa(Md::Sha512),
